@@ -2975,5 +2975,41 @@ pub fn probe() -> String {
             lo[t] = b'1';
         }
     }
-    format!("cfg {} {} {}", limit, String::from_utf8(sh).unwrap(), String::from_utf8(lo).unwrap())
+    // the command codes and application ids the library's enums hold: every 24-bit command code and every 32-bit
+    // application id is tried (in parallel), and each one found is confirmed on the decoder with a header-only frame
+    let cmds = sweep(0, 1 << 24, |c| crate::interp::cmd_of(c).is_some());
+    let apps = sweep(0, 1 << 32, |a| crate::interp::app_of(a).is_some());
+    let frame_with = |c: u32, a: u32| -> Vec<u8> {
+        let mut f = vec![1u8, 0, 0, 20, 0x80];
+        f.extend(&c.to_be_bytes()[1..]);
+        f.extend(a.to_be_bytes());
+        f.extend([0, 0, 0, 1, 0, 0, 0, 2]);
+        f
+    };
+    let (c0, a0) = (cmds.first().copied().unwrap_or(0), apps.first().copied().unwrap_or(0));
+    let cmds: Vec<u32> = cmds.into_iter().filter(|c| accepts(&frame_with(*c, a0))).collect();
+    let apps: Vec<u32> = apps.into_iter().filter(|a| accepts(&frame_with(c0, *a))).collect();
+    let join = |v: &Vec<u32>| v.iter().map(|x| x.to_string()).collect::<Vec<_>>().join(",");
+    format!("cfg {} {} {} cmds={} apps={}", limit, String::from_utf8(sh).unwrap(), String::from_utf8(lo).unwrap(), join(&cmds), join(&apps))
+}
+
+/// all `x` in `lo..hi` with `f(x)`, ascending (16 threads)
+pub fn sweep(lo: u64, hi: u64, f: fn(u32) -> bool) -> Vec<u32> {
+    {
+        let nthreads = 16u64;
+        let step = (hi - lo + nthreads - 1) / nthreads;
+        let mut found: Vec<u32> = std::thread::scope(|sc| {
+            let hs: Vec<_> = (0..nthreads)
+                .map(|t| {
+                    sc.spawn(move || {
+                        let (a, b) = (lo + t * step, (lo + (t + 1) * step).min(hi));
+                        (a..b).filter(|x| f(*x as u32)).map(|x| x as u32).collect::<Vec<u32>>()
+                    })
+                })
+                .collect();
+            hs.into_iter().flat_map(|h| h.join().unwrap()).collect()
+        });
+        found.sort();
+        found
+    }
 }
